@@ -1279,7 +1279,7 @@ theorem catContains_eq_spec (cats : List Int) (x : Int) (h : ArrayUtil.strictSor
     by_cases hcx : c < x
     · have hne : ¬ (x = c) := fun e => by omega
       have hss : searchSorted (c :: cs) x = searchSorted cs x + 1 := by
-        simp [searchSorted, List.takeWhile_cons, hcx]
+        simp [searchSorted, hcx]
       cases cs with
       | nil =>
         simp [Impl.catContains, hss, hne]
@@ -1294,7 +1294,7 @@ theorem catContains_eq_spec (cats : List Int) (x : Int) (h : ArrayUtil.strictSor
         rw [e]
         simp
     · have hss : searchSorted (c :: cs) x = 0 := by
-        simp [searchSorted, List.takeWhile_cons, hcx]
+        simp [searchSorted, hcx]
       have hnot : ∀ y ∈ cs, ¬ (x = y) := fun y hy e => by
         have := hlt y hy
         omega
